@@ -45,7 +45,10 @@ Record qshared := mkSh {
   (* ghost ledger *)
   g_enq : list cevt; g_disp : list (nat * cevt); g_taken : list (nat * cevt); g_cleared : list cevt;
   g_settled : list cevt;        (* events whose enqueue has put them into queueList (newest first) *)
-  g_putbacks : nat              (* how many times processIf / processUntil have put events back *)
+  g_putbacks : nat;             (* how many times processIf / processUntil have put events back *)
+  (* ghosts of the wake-up argument (QConcWake.v) *)
+  g_awake : list nat;           (* threads that returned from wait / waitFor observing work and have not since found the queue empty or taken all of it *)
+  g_under : bool                (* a DisableQueueNotify was destroyed that had not been constructed (queueNotifyCounter went negative) *)
 }.
 
 Record qlocals := mkLo {
@@ -57,10 +60,12 @@ Record qlocals := mkLo {
   lheld : nat;                  (* processing guards (increments of queueEmptyCounter) this call holds *)
   lsnap : list cevt;            (* emptyQueue(): the events that were settled when the call began *)
   lseen : bool;                 (* emptyQueue(): the list test has found queueList empty *)
-  ltaking : bool                (* takeEvent / clearEvents: the events in ltemp have been removed from the queue for good *)
+  ltaking : bool;               (* takeEvent / clearEvents: the events in ltemp have been removed from the queue for good *)
+  lowes : bool                  (* this thread made (or was handed) "events pending and notification enabled" and has not yet notified,
+                                   nor seen since that it does not hold any more (QConcWake.v) *)
 }.
 
-Definition lo0 : qlocals := mkLo [] [] 0 0 false false false false false None None 0 [] false false.
+Definition lo0 : qlocals := mkLo [] [] 0 0 false false false false false None None 0 [] false false false.
 
 Definition pverdict (p : nat) (e : cevt) : bool := Z.even (Z.of_nat p + cea e).
 
@@ -78,35 +83,39 @@ Inductive instr :=
 | IRead (r : res).               (* scheduling point: the unlocked read of queueList.empty() / freeList.empty() that follows *)
 
 (* ---------- field updates ---------- *)
-Definition sh_ql sh v := mkSh v (fl sh) (cec sh) (cnc sh) (oqm sh) (ofm sh) (nextid sh) (clog sh) (g_enq sh) (g_disp sh) (g_taken sh) (g_cleared sh) (g_settled sh) (g_putbacks sh).
-Definition sh_fl sh v := mkSh (ql sh) v (cec sh) (cnc sh) (oqm sh) (ofm sh) (nextid sh) (clog sh) (g_enq sh) (g_disp sh) (g_taken sh) (g_cleared sh) (g_settled sh) (g_putbacks sh).
-Definition sh_ec sh v := mkSh (ql sh) (fl sh) v (cnc sh) (oqm sh) (ofm sh) (nextid sh) (clog sh) (g_enq sh) (g_disp sh) (g_taken sh) (g_cleared sh) (g_settled sh) (g_putbacks sh).
-Definition sh_nc sh v := mkSh (ql sh) (fl sh) (cec sh) v (oqm sh) (ofm sh) (nextid sh) (clog sh) (g_enq sh) (g_disp sh) (g_taken sh) (g_cleared sh) (g_settled sh) (g_putbacks sh).
-Definition sh_oqm sh v := mkSh (ql sh) (fl sh) (cec sh) (cnc sh) v (ofm sh) (nextid sh) (clog sh) (g_enq sh) (g_disp sh) (g_taken sh) (g_cleared sh) (g_settled sh) (g_putbacks sh).
-Definition sh_ofm sh v := mkSh (ql sh) (fl sh) (cec sh) (cnc sh) (oqm sh) v (nextid sh) (clog sh) (g_enq sh) (g_disp sh) (g_taken sh) (g_cleared sh) (g_settled sh) (g_putbacks sh).
-Definition sh_log sh e := mkSh (ql sh) (fl sh) (cec sh) (cnc sh) (oqm sh) (ofm sh) (nextid sh) (e :: clog sh) (g_enq sh) (g_disp sh) (g_taken sh) (g_cleared sh) (g_settled sh) (g_putbacks sh).
-Definition sh_enq sh e := mkSh (ql sh) (fl sh) (cec sh) (cnc sh) (oqm sh) (ofm sh) (S (nextid sh)) (clog sh) (e :: g_enq sh) (g_disp sh) (g_taken sh) (g_cleared sh) (g_settled sh) (g_putbacks sh).
-Definition sh_disp sh t e := mkSh (ql sh) (fl sh) (cec sh) (cnc sh) (oqm sh) (ofm sh) (nextid sh) (CDisp t (cek e) (cea e) :: clog sh) (g_enq sh) ((t, e) :: g_disp sh) (g_taken sh) (g_cleared sh) (g_settled sh) (g_putbacks sh).
-Definition sh_take sh t e := mkSh (ql sh) (fl sh) (cec sh) (cnc sh) (oqm sh) (ofm sh) (nextid sh) (clog sh) (g_enq sh) (g_disp sh) ((t, e) :: g_taken sh) (g_cleared sh) (g_settled sh) (g_putbacks sh).
-Definition sh_settle sh e := mkSh (ql sh) (fl sh) (cec sh) (cnc sh) (oqm sh) (ofm sh) (nextid sh) (clog sh) (g_enq sh) (g_disp sh) (g_taken sh) (g_cleared sh) (e :: g_settled sh) (g_putbacks sh).
-Definition sh_putback sh := mkSh (ql sh) (fl sh) (cec sh) (cnc sh) (oqm sh) (ofm sh) (nextid sh) (clog sh) (g_enq sh) (g_disp sh) (g_taken sh) (g_cleared sh) (g_settled sh) (S (g_putbacks sh)).
-Definition sh_clear sh es := mkSh (ql sh) (fl sh) (cec sh) (cnc sh) (oqm sh) (ofm sh) (nextid sh) (clog sh) (g_enq sh) (g_disp sh) (g_taken sh) (es ++ g_cleared sh) (g_settled sh) (g_putbacks sh).
+Definition sh_ql sh v := mkSh v (fl sh) (cec sh) (cnc sh) (oqm sh) (ofm sh) (nextid sh) (clog sh) (g_enq sh) (g_disp sh) (g_taken sh) (g_cleared sh) (g_settled sh) (g_putbacks sh) (g_awake sh) (g_under sh).
+Definition sh_fl sh v := mkSh (ql sh) v (cec sh) (cnc sh) (oqm sh) (ofm sh) (nextid sh) (clog sh) (g_enq sh) (g_disp sh) (g_taken sh) (g_cleared sh) (g_settled sh) (g_putbacks sh) (g_awake sh) (g_under sh).
+Definition sh_ec sh v := mkSh (ql sh) (fl sh) v (cnc sh) (oqm sh) (ofm sh) (nextid sh) (clog sh) (g_enq sh) (g_disp sh) (g_taken sh) (g_cleared sh) (g_settled sh) (g_putbacks sh) (g_awake sh) (g_under sh).
+Definition sh_nc sh v := mkSh (ql sh) (fl sh) (cec sh) v (oqm sh) (ofm sh) (nextid sh) (clog sh) (g_enq sh) (g_disp sh) (g_taken sh) (g_cleared sh) (g_settled sh) (g_putbacks sh) (g_awake sh) (g_under sh).
+Definition sh_oqm sh v := mkSh (ql sh) (fl sh) (cec sh) (cnc sh) v (ofm sh) (nextid sh) (clog sh) (g_enq sh) (g_disp sh) (g_taken sh) (g_cleared sh) (g_settled sh) (g_putbacks sh) (g_awake sh) (g_under sh).
+Definition sh_ofm sh v := mkSh (ql sh) (fl sh) (cec sh) (cnc sh) (oqm sh) v (nextid sh) (clog sh) (g_enq sh) (g_disp sh) (g_taken sh) (g_cleared sh) (g_settled sh) (g_putbacks sh) (g_awake sh) (g_under sh).
+Definition sh_log sh e := mkSh (ql sh) (fl sh) (cec sh) (cnc sh) (oqm sh) (ofm sh) (nextid sh) (e :: clog sh) (g_enq sh) (g_disp sh) (g_taken sh) (g_cleared sh) (g_settled sh) (g_putbacks sh) (g_awake sh) (g_under sh).
+Definition sh_enq sh e := mkSh (ql sh) (fl sh) (cec sh) (cnc sh) (oqm sh) (ofm sh) (S (nextid sh)) (clog sh) (e :: g_enq sh) (g_disp sh) (g_taken sh) (g_cleared sh) (g_settled sh) (g_putbacks sh) (g_awake sh) (g_under sh).
+Definition sh_disp sh t e := mkSh (ql sh) (fl sh) (cec sh) (cnc sh) (oqm sh) (ofm sh) (nextid sh) (CDisp t (cek e) (cea e) :: clog sh) (g_enq sh) ((t, e) :: g_disp sh) (g_taken sh) (g_cleared sh) (g_settled sh) (g_putbacks sh) (g_awake sh) (g_under sh).
+Definition sh_take sh t e := mkSh (ql sh) (fl sh) (cec sh) (cnc sh) (oqm sh) (ofm sh) (nextid sh) (clog sh) (g_enq sh) (g_disp sh) ((t, e) :: g_taken sh) (g_cleared sh) (g_settled sh) (g_putbacks sh) (g_awake sh) (g_under sh).
+Definition sh_settle sh e := mkSh (ql sh) (fl sh) (cec sh) (cnc sh) (oqm sh) (ofm sh) (nextid sh) (clog sh) (g_enq sh) (g_disp sh) (g_taken sh) (g_cleared sh) (e :: g_settled sh) (g_putbacks sh) (g_awake sh) (g_under sh).
+Definition sh_putback sh := mkSh (ql sh) (fl sh) (cec sh) (cnc sh) (oqm sh) (ofm sh) (nextid sh) (clog sh) (g_enq sh) (g_disp sh) (g_taken sh) (g_cleared sh) (g_settled sh) (S (g_putbacks sh)) (g_awake sh) (g_under sh).
+Definition sh_clear sh es := mkSh (ql sh) (fl sh) (cec sh) (cnc sh) (oqm sh) (ofm sh) (nextid sh) (clog sh) (g_enq sh) (g_disp sh) (g_taken sh) (es ++ g_cleared sh) (g_settled sh) (g_putbacks sh) (g_awake sh) (g_under sh).
+Definition sh_awake sh (t : nat) := mkSh (ql sh) (fl sh) (cec sh) (cnc sh) (oqm sh) (ofm sh) (nextid sh) (clog sh) (g_enq sh) (g_disp sh) (g_taken sh) (g_cleared sh) (g_settled sh) (g_putbacks sh) (t :: g_awake sh) (g_under sh).
+Definition sh_unawake sh (t : nat) := mkSh (ql sh) (fl sh) (cec sh) (cnc sh) (oqm sh) (ofm sh) (nextid sh) (clog sh) (g_enq sh) (g_disp sh) (g_taken sh) (g_cleared sh) (g_settled sh) (g_putbacks sh) (remove Nat.eq_dec t (g_awake sh)) (g_under sh).
+Definition sh_under sh := mkSh (ql sh) (fl sh) (cec sh) (cnc sh) (oqm sh) (ofm sh) (nextid sh) (clog sh) (g_enq sh) (g_disp sh) (g_taken sh) (g_cleared sh) (g_settled sh) (g_putbacks sh) (g_awake sh) true.
 
-Definition lo_temp lo v := mkLo v (lkept lo) (lidle lo) (lreg lo) (lb lo) (lbe lo) (lres lo) (lslot lo) (ltimedout lo) (lev lo) (lshow lo) (lheld lo) (lsnap lo) (lseen lo) (ltaking lo).
-Definition lo_kept lo v := mkLo (ltemp lo) v (lidle lo) (lreg lo) (lb lo) (lbe lo) (lres lo) (lslot lo) (ltimedout lo) (lev lo) (lshow lo) (lheld lo) (lsnap lo) (lseen lo) (ltaking lo).
-Definition lo_idle lo v := mkLo (ltemp lo) (lkept lo) v (lreg lo) (lb lo) (lbe lo) (lres lo) (lslot lo) (ltimedout lo) (lev lo) (lshow lo) (lheld lo) (lsnap lo) (lseen lo) (ltaking lo).
-Definition lo_reg lo v := mkLo (ltemp lo) (lkept lo) (lidle lo) v (lb lo) (lbe lo) (lres lo) (lslot lo) (ltimedout lo) (lev lo) (lshow lo) (lheld lo) (lsnap lo) (lseen lo) (ltaking lo).
-Definition lo_b lo v := mkLo (ltemp lo) (lkept lo) (lidle lo) (lreg lo) v (lbe lo) (lres lo) (lslot lo) (ltimedout lo) (lev lo) (lshow lo) (lheld lo) (lsnap lo) (lseen lo) (ltaking lo).
-Definition lo_be lo v := mkLo (ltemp lo) (lkept lo) (lidle lo) (lreg lo) (lb lo) v (lres lo) (lslot lo) (ltimedout lo) (lev lo) (lshow lo) (lheld lo) (lsnap lo) (lseen lo) (ltaking lo).
-Definition lo_res lo v := mkLo (ltemp lo) (lkept lo) (lidle lo) (lreg lo) (lb lo) (lbe lo) v (lslot lo) (ltimedout lo) (lev lo) (lshow lo) (lheld lo) (lsnap lo) (lseen lo) (ltaking lo).
-Definition lo_slot lo v := mkLo (ltemp lo) (lkept lo) (lidle lo) (lreg lo) (lb lo) (lbe lo) (lres lo) v (ltimedout lo) (lev lo) (lshow lo) (lheld lo) (lsnap lo) (lseen lo) (ltaking lo).
-Definition lo_to lo v := mkLo (ltemp lo) (lkept lo) (lidle lo) (lreg lo) (lb lo) (lbe lo) (lres lo) (lslot lo) v (lev lo) (lshow lo) (lheld lo) (lsnap lo) (lseen lo) (ltaking lo).
-Definition lo_ev lo v := mkLo (ltemp lo) (lkept lo) (lidle lo) (lreg lo) (lb lo) (lbe lo) (lres lo) (lslot lo) (ltimedout lo) v (lshow lo) (lheld lo) (lsnap lo) (lseen lo) (ltaking lo).
-Definition lo_show lo v := mkLo (ltemp lo) (lkept lo) (lidle lo) (lreg lo) (lb lo) (lbe lo) (lres lo) (lslot lo) (ltimedout lo) (lev lo) v (lheld lo) (lsnap lo) (lseen lo) (ltaking lo).
-Definition lo_held lo v := mkLo (ltemp lo) (lkept lo) (lidle lo) (lreg lo) (lb lo) (lbe lo) (lres lo) (lslot lo) (ltimedout lo) (lev lo) (lshow lo) v (lsnap lo) (lseen lo) (ltaking lo).
-Definition lo_snap lo v := mkLo (ltemp lo) (lkept lo) (lidle lo) (lreg lo) (lb lo) (lbe lo) (lres lo) (lslot lo) (ltimedout lo) (lev lo) (lshow lo) (lheld lo) v (lseen lo) (ltaking lo).
-Definition lo_seen lo v := mkLo (ltemp lo) (lkept lo) (lidle lo) (lreg lo) (lb lo) (lbe lo) (lres lo) (lslot lo) (ltimedout lo) (lev lo) (lshow lo) (lheld lo) (lsnap lo) v (ltaking lo).
-Definition lo_taking lo v := mkLo (ltemp lo) (lkept lo) (lidle lo) (lreg lo) (lb lo) (lbe lo) (lres lo) (lslot lo) (ltimedout lo) (lev lo) (lshow lo) (lheld lo) (lsnap lo) (lseen lo) v.
+Definition lo_temp lo v := mkLo v (lkept lo) (lidle lo) (lreg lo) (lb lo) (lbe lo) (lres lo) (lslot lo) (ltimedout lo) (lev lo) (lshow lo) (lheld lo) (lsnap lo) (lseen lo) (ltaking lo) (lowes lo).
+Definition lo_kept lo v := mkLo (ltemp lo) v (lidle lo) (lreg lo) (lb lo) (lbe lo) (lres lo) (lslot lo) (ltimedout lo) (lev lo) (lshow lo) (lheld lo) (lsnap lo) (lseen lo) (ltaking lo) (lowes lo).
+Definition lo_idle lo v := mkLo (ltemp lo) (lkept lo) v (lreg lo) (lb lo) (lbe lo) (lres lo) (lslot lo) (ltimedout lo) (lev lo) (lshow lo) (lheld lo) (lsnap lo) (lseen lo) (ltaking lo) (lowes lo).
+Definition lo_reg lo v := mkLo (ltemp lo) (lkept lo) (lidle lo) v (lb lo) (lbe lo) (lres lo) (lslot lo) (ltimedout lo) (lev lo) (lshow lo) (lheld lo) (lsnap lo) (lseen lo) (ltaking lo) (lowes lo).
+Definition lo_b lo v := mkLo (ltemp lo) (lkept lo) (lidle lo) (lreg lo) v (lbe lo) (lres lo) (lslot lo) (ltimedout lo) (lev lo) (lshow lo) (lheld lo) (lsnap lo) (lseen lo) (ltaking lo) (lowes lo).
+Definition lo_be lo v := mkLo (ltemp lo) (lkept lo) (lidle lo) (lreg lo) (lb lo) v (lres lo) (lslot lo) (ltimedout lo) (lev lo) (lshow lo) (lheld lo) (lsnap lo) (lseen lo) (ltaking lo) (lowes lo).
+Definition lo_res lo v := mkLo (ltemp lo) (lkept lo) (lidle lo) (lreg lo) (lb lo) (lbe lo) v (lslot lo) (ltimedout lo) (lev lo) (lshow lo) (lheld lo) (lsnap lo) (lseen lo) (ltaking lo) (lowes lo).
+Definition lo_slot lo v := mkLo (ltemp lo) (lkept lo) (lidle lo) (lreg lo) (lb lo) (lbe lo) (lres lo) v (ltimedout lo) (lev lo) (lshow lo) (lheld lo) (lsnap lo) (lseen lo) (ltaking lo) (lowes lo).
+Definition lo_to lo v := mkLo (ltemp lo) (lkept lo) (lidle lo) (lreg lo) (lb lo) (lbe lo) (lres lo) (lslot lo) v (lev lo) (lshow lo) (lheld lo) (lsnap lo) (lseen lo) (ltaking lo) (lowes lo).
+Definition lo_ev lo v := mkLo (ltemp lo) (lkept lo) (lidle lo) (lreg lo) (lb lo) (lbe lo) (lres lo) (lslot lo) (ltimedout lo) v (lshow lo) (lheld lo) (lsnap lo) (lseen lo) (ltaking lo) (lowes lo).
+Definition lo_show lo v := mkLo (ltemp lo) (lkept lo) (lidle lo) (lreg lo) (lb lo) (lbe lo) (lres lo) (lslot lo) (ltimedout lo) (lev lo) v (lheld lo) (lsnap lo) (lseen lo) (ltaking lo) (lowes lo).
+Definition lo_held lo v := mkLo (ltemp lo) (lkept lo) (lidle lo) (lreg lo) (lb lo) (lbe lo) (lres lo) (lslot lo) (ltimedout lo) (lev lo) (lshow lo) v (lsnap lo) (lseen lo) (ltaking lo) (lowes lo).
+Definition lo_snap lo v := mkLo (ltemp lo) (lkept lo) (lidle lo) (lreg lo) (lb lo) (lbe lo) (lres lo) (lslot lo) (ltimedout lo) (lev lo) (lshow lo) (lheld lo) v (lseen lo) (ltaking lo) (lowes lo).
+Definition lo_seen lo v := mkLo (ltemp lo) (lkept lo) (lidle lo) (lreg lo) (lb lo) (lbe lo) (lres lo) (lslot lo) (ltimedout lo) (lev lo) (lshow lo) (lheld lo) (lsnap lo) v (ltaking lo) (lowes lo).
+Definition lo_taking lo v := mkLo (ltemp lo) (lkept lo) (lidle lo) (lreg lo) (lb lo) (lbe lo) (lres lo) (lslot lo) (ltimedout lo) (lev lo) (lshow lo) (lheld lo) (lsnap lo) (lseen lo) v (lowes lo).
+Definition lo_owes lo v := mkLo (ltemp lo) (lkept lo) (lidle lo) (lreg lo) (lb lo) (lbe lo) (lres lo) (lslot lo) (ltimedout lo) (lev lo) (lshow lo) (lheld lo) (lsnap lo) (lseen lo) (ltaking lo) v.
 
 Definition nonempty {A} (l : list A) : bool := match l with [] => false | _ => true end.
 
@@ -118,19 +127,22 @@ Definition eval_empty : list instr :=
   | [0; 1] =>
       [IRead RQ;
        IIf [RQ] (fun sh _ => negb (nonempty (ql sh)))
-           [ILocal [] (fun _ sh lo => (sh, lo_seen lo (negb (nonempty (ql sh)))));       (* ghost: the list test found it empty *)
+           [ILocal [] (fun _ sh lo => (sh, lo_owes (lo_seen lo (negb (nonempty (ql sh)))) (lowes lo && nonempty (ql sh))));   (* ghosts: the list test found it empty *)
             IALoad EC; ILocal [] (fun _ sh lo => (sh, lo_be lo (GenQ.empty_queue true (lreg lo))))]
            [ILocal [] (fun _ sh lo => (sh, lo_be (lo_seen lo false) false))]]
   | _ =>
       [IALoad EC;
        IIf [] (fun _ lo => GenQ.empty_queue true (lreg lo))
-           [IRead RQ; ILocal [RQ] (fun _ sh lo => (sh, lo_be (lo_seen lo false) (negb (nonempty (ql sh)))))]
+           [IRead RQ; ILocal [RQ] (fun _ sh lo => (sh, lo_owes (lo_be (lo_seen lo false) (negb (nonempty (ql sh)))) (lowes lo && nonempty (ql sh))))]
            [ILocal [] (fun _ sh lo => (sh, lo_be (lo_seen lo false) false))]]
   end.
 
 (* doCanNotifyQueueAvailable() *)
 Definition eval_can_notify : list instr :=
-  [IALoad NC; ILocal [] (fun _ sh lo => (sh, lo_b lo (GenQ.can_notify (lreg lo))))].
+  [IALoad NC; ILocal [] (fun _ sh lo => (sh, lo_owes (lo_b lo (GenQ.can_notify (lreg lo))) (lowes lo && Z.eqb (cnc sh) 0)))].
+
+(* notify_one, and the ghost: whoever was owed a wake-up has got it *)
+Definition notify_code : list instr := [INotify; ILocal [] (fun _ sh lo => (sh, lo_owes lo false))].
 
 (* doCanProcess(): !emptyQueue() && doCanNotifyQueueAvailable() *)
 Definition eval_can_process : list instr :=
@@ -151,14 +163,14 @@ Fixpoint split_until (p : nat) (l : list cevt) : list cevt * list cevt :=
    it an enqueue that looked at the queue while the events were held here has not notified, and a waiter sleeps on
    a non-empty queue: P13) *)
 Definition putback (notifies : bool) : list instr :=
-  [ILock QM; ILocal [RQ] (fun _ sh lo => (sh_putback (sh_ql sh (ltemp lo ++ ql sh)), lo_temp lo [])); IUnlock QM]
-  ++ (if notifies then eval_can_process ++ [IIf [] (fun _ lo => lb lo) [INotify] []] else []).
+  [ILock QM; ILocal [RQ] (fun _ sh lo => (sh_putback (sh_ql sh (ltemp lo ++ ql sh)), lo_owes (lo_temp lo []) true)); IUnlock QM]
+  ++ (if notifies then eval_can_process ++ [IIf [] (fun _ lo => lb lo) notify_code []] else []).
 
 Definition processif_code (notifies : bool) (p : nat) : list instr :=
       [IRead RQ;
        IIf [RQ] (fun sh _ => nonempty (ql sh))
            [IAInc EC; ILock QM;
-            ILocal [RQ] (fun _ sh lo => (sh_ql sh [], lo_temp lo (ql sh)));
+            ILocal [RQ] (fun t sh lo => (sh_unawake (sh_ql sh []) t, lo_temp lo (ql sh)));
             IUnlock QM;
             IIf [] (fun _ lo => nonempty (ltemp lo))
                 [ILocal [] (fun t sh lo =>
@@ -172,14 +184,14 @@ Definition processif_code (notifies : bool) (p : nat) : list instr :=
                      [ILocal [] (fun _ sh lo => (sh, lo_res lo false))]]
                 [ILocal [] (fun _ sh lo => (sh, lo_res lo false))];
             IADec EC]
-           [ILocal [] (fun _ sh lo => (sh, lo_res lo false))];
+           [ILocal [] (fun t sh lo => (if nonempty (ql sh) then sh else sh_unawake sh t, lo_res lo false))];   (* ghost: found nothing to do *)
        IRes].
 
 Definition processuntil_code (notifies : bool) (p : nat) : list instr :=
       [IRead RQ;
        IIf [RQ] (fun sh _ => nonempty (ql sh))
            [IAInc EC; ILock QM;
-            ILocal [RQ] (fun _ sh lo => (sh_ql sh [], lo_temp lo (ql sh)));
+            ILocal [RQ] (fun t sh lo => (sh_unawake (sh_ql sh []) t, lo_temp lo (ql sh)));
             IUnlock QM;
             IIf [] (fun _ lo => nonempty (ltemp lo))
                 [ILocal [] (fun t sh lo =>
@@ -192,8 +204,13 @@ Definition processuntil_code (notifies : bool) (p : nat) : list instr :=
                      [ILocal [] (fun _ sh lo => (sh, lo_res lo false))]]
                 [ILocal [] (fun _ sh lo => (sh, lo_res lo false))];
             IADec EC]
-           [ILocal [] (fun _ sh lo => (sh, lo_res lo false))];
+           [ILocal [] (fun t sh lo => (if nonempty (ql sh) then sh else sh_unawake sh t, lo_res lo false))];   (* ghost: found nothing to do *)
        IRes].
+
+(* ghost step before the decrement of queueNotifyCounter: from the decrement on this thread owes a wake-up; a
+   counter that is not positive now will go below zero: an object is destroyed that had never been constructed *)
+Definition dqn_ghost : instr :=
+  ILocal [] (fun _ sh lo => (if Z.leb (cnc sh) 0 then sh_under sh else sh, lo_owes lo true)).
 
 (* ---------- the API calls, transcribed from eventqueue.h ---------- *)
 
@@ -208,15 +225,15 @@ Definition code_of (c : qapi) : list instr :=
             IUnlock FM]
            [];
        ILock QM;
-       ILocal [RQ] (fun _ sh lo => match lev lo with Some e => (sh_settle (sh_ql sh (ql sh ++ [e])) e, lo_ev lo None) | None => (sh, lo) end);
+       ILocal [RQ] (fun _ sh lo => match lev lo with Some e => (sh_settle (sh_ql sh (ql sh ++ [e])) e, lo_owes (lo_ev lo None) true) | None => (sh, lo) end);
        IUnlock QM]
       ++ eval_can_process
-      ++ [IIf [] (fun _ lo => lb lo) [INotify] []; IDone]
+      ++ [IIf [] (fun _ lo => lb lo) notify_code []; IDone]
   | AProcess =>
       [IRead RQ;
        IIf [RQ] (fun sh _ => nonempty (ql sh))
            [IAInc EC; ILock QM;
-            ILocal [RQ] (fun _ sh lo => (sh_ql sh [], lo_temp lo (ql sh)));
+            ILocal [RQ] (fun t sh lo => (sh_unawake (sh_ql sh []) t, lo_temp lo (ql sh)));
             IUnlock QM;
             IIf [] (fun _ lo => nonempty (ltemp lo))
                 [ILocal [] (fun t sh lo => (dispatch_all t sh (ltemp lo), lo_idle (lo_temp lo []) (length (ltemp lo))));
@@ -224,7 +241,7 @@ Definition code_of (c : qapi) : list instr :=
                  ILocal [] (fun _ sh lo => (sh, lo_res lo true))]
                 [ILocal [] (fun _ sh lo => (sh, lo_res lo false))];
             IADec EC]
-           [ILocal [] (fun _ sh lo => (sh, lo_res lo false))];
+           [ILocal [] (fun t sh lo => (if nonempty (ql sh) then sh else sh_unawake sh t, lo_res lo false))];   (* ghost: found nothing to do *)
        IRes]
   | AProcessOne =>
       [IRead RQ;
@@ -288,19 +305,21 @@ Definition code_of (c : qapi) : list instr :=
   | ADisableBegin => [IAInc NC; IDone]
   | ADisableEnd =>
       (* ~DisableQueueNotify(): the decrement is inside a queueListMutex section iff the header says so (tie A) *)
-      (if GenQConc.dqn_dtor_decrement_under_mutex then [ILock QM; IADec NC; IUnlock QM] else [IADec NC])
+      (if GenQConc.dqn_dtor_decrement_under_mutex then [ILock QM; dqn_ghost; IADec NC; IUnlock QM] else [dqn_ghost; IADec NC])
       ++ eval_can_notify
-      ++ [IIf [] (fun _ lo => lb lo) (eval_empty ++ [IIf [] (fun _ lo => negb (lbe lo)) [INotify] []]) []; IDone]
+      ++ [IIf [] (fun _ lo => lb lo) (eval_empty ++ [IIf [] (fun _ lo => negb (lbe lo)) notify_code []]) []; IDone]
   end.
 
 (* the predicate loop of condition_variable::wait(lock, pred) / wait_for(lock, dur, pred) *)
 Definition wait_loop (timed : bool) : list instr :=
   eval_can_process ++
   [IIf [] (fun _ lo => lb lo)
-       [ILocal [] (fun _ sh lo => (sh, lo_res lo true))]
-       [ICvWait timed;
+       [ILocal [] (fun t sh lo => (sh_awake sh t, lo_owes (lo_res lo true) false))]     (* ghost: returns having observed work *)
+       [ILocal [] (fun _ sh lo => (sh, lo_owes lo true));      (* ghost: once woken (or timed out) this thread has the wake-up in its hands *)
+        ICvWait timed;
         IIf [] (fun _ lo => ltimedout lo)
-            (eval_can_process ++ [ILocal [] (fun _ sh lo => (sh, lo_res lo (lb lo)))])
+            (eval_can_process ++
+             [ILocal [] (fun t sh lo => (if lb lo then sh_awake sh t else sh, lo_owes (lo_res lo (lb lo)) (lowes lo && negb (lb lo))))])
             [IWaitLoop timed]]].
 
 (* ---------- threads and configurations ---------- *)
@@ -466,7 +485,7 @@ Fixpoint run_sched (fuel : nat) (cfg : config) : config :=
   | S f => match sched_step cfg with Some c => run_sched f c | None => cfg end
   end.
 
-Definition sh0 : qshared := mkSh [] 0 0 0 None None 0 [] [] [] [] [] [] 0.
+Definition sh0 : qshared := mkSh [] 0 0 0 None None 0 [] [] [] [] [] [] 0 [] false.
 
 (* every thread starts parked at its creation point and runs when first scheduled (harness: Start) *)
 Definition start_threads (progs : list (list qapi)) : list thread :=
